@@ -27,3 +27,9 @@ cap = [r for r in res if r[2]]
 print("jobs", len(res), "total_core_s %.0f" % tot, "capped", len(cap))
 for r in sorted(res, key=lambda r: -r[1])[:15]:
     print("  %.1fs capped=%s states=%s depth=%s %s" % (r[1], r[2], r[3], r[4], r[0]))
+
+import collections
+by_seed = collections.Counter()
+for r in cap:
+    parts = r[0].split("-"); by_seed[(parts[1], parts[2], parts[-1])] += 1
+print("capped by (kernel, seed, cfg):", dict(by_seed))
